@@ -876,12 +876,14 @@ func (e *Engine) handleOverflow(ctx context.Context, p peer.ID, overflow, wants 
 	slices.SortFunc(overflow, func(a, b bsmsg.Entry) int {
 		return cmp.Compare(b.Entry.Priority, a.Entry.Priority)
 	})
+	verifOrderTiesEntries(overflow)
 	// Sort existing wants from least to most important, to try to replace
 	// lowest priority items first.
 	existingWants := e.peerLedger.WantlistForPeer(p)
 	slices.SortFunc(existingWants, func(a, b wl.Entry) int {
 		return cmp.Compare(b.Priority, a.Priority)
 	})
+	verifOrderTiesWants(existingWants)
 
 	queuedWantKs := cid.NewSet()
 	for _, entry := range existingWants {
